@@ -220,7 +220,12 @@ func (a *actor) track(name string, d int) {
 	a.mu.Unlock()
 }
 
-func (a *actor) sidSeen(sid string) bool { a.mu.Lock(); defer a.mu.Unlock(); _, ok := a.sids[sid]; return ok }
+func (a *actor) sidSeen(sid string) bool {
+	a.mu.Lock()
+	defer a.mu.Unlock()
+	_, ok := a.sids[sid]
+	return ok
+}
 
 // backend plays the local service on a work connection, according to the kind of the proxy named in StartWorkConn.
 // Every answer carries "<actor id>|<proxy name>|", so the user side sees which session and proxy served it.
